@@ -90,6 +90,11 @@ pub fn fast_check_rooted(pkgs: &[FcPackage], n_root_pkgs: usize, cache: Option<&
 
 /// `root_pkgs`: indices of the packages the root program imports directly, in that order.
 pub fn fast_check_roots(pkgs: &[FcPackage], root_pkgs: &[usize], cache: Option<&RecordingFcCache>, ch: &Ch) -> Option<FcResult> {
+  fast_check_roots_kind(pkgs, root_pkgs, cache, ch, GraphKind::All)
+}
+
+/// Same, with the graph built as `kind` (fast check does nothing for CodeOnly).
+pub fn fast_check_roots_kind(pkgs: &[FcPackage], root_pkgs: &[usize], cache: Option<&RecordingFcCache>, ch: &Ch, kind: GraphKind) -> Option<FcResult> {
   let sched = Sched::new(SchedMode::Immediate);
   let loader = ScriptedLoader::new(sched);
   let mut root = String::new();
@@ -128,7 +133,7 @@ pub fn fast_check_roots(pkgs: &[FcPackage], root_pkgs: &[usize], cache: Option<&
     .install(&loader);
   }
   let analyzer = deno_graph::ast::CapturingModuleAnalyzer::default();
-  let mut graph = ModuleGraph::new(GraphKind::All);
+  let mut graph = ModuleGraph::new(kind);
   build_graph(
     &mut graph,
     roots,
